@@ -717,6 +717,9 @@ func (x *Exec) convert(st *State, v Val, from, to types.Type) (Val, error) {
 			u.emitOnce("(assert (forall ((a (Array Int Int)) (o Int) (n Int) (i Int)) (! (=> (and (<= 0 i) (< i n)) (= (sbyte (mkstr a o n) i) (select a (+ o i)))) :pattern ((sbyte (mkstr a o n) i)))))")
 		}
 		arr := Select(u.comp(st, elemComp(et, ""), ArrSort(SInt, ArrSort(u.IntSort(), bs))), v.S[0])
+		if x.quantDepth > 0 {
+			return scalar(to, App("mkstr", SStr, arr, v.S[1], v.S[2])), nil
+		}
 		return scalar(to, u.Define("str", App("mkstr", SStr, arr, v.S[1], v.S[2]))), nil
 	case fk == KInt && tk == KString:
 		u.DeclareFun("runestr", []Sort{u.IntSort()}, SStr)
@@ -996,19 +999,20 @@ func (x *Exec) makeIface(st *State, v Val, from, to types.Type) (Val, error) {
 				payload = App("sbv_to_int_stub", SInt, v.One())
 				return Val{}, engineErr("%s: integer boxed into an interface in bv mode", x.topName)
 			}
-			payload = App("bv2nat", SInt, v.One())
+			payload = App("box.Int", SInt, App("bv2nat", SInt, v.One()))
 		} else {
-			payload = v.One()
+			payload = App("box.Int", SInt, v.One())
 		}
 	case KBool:
-		payload = Ite(v.One(), IntLit(1), IntLit(0))
+		payload = App("box.Int", SInt, Ite(v.One(), IntLit(1), IntLit(0)))
 	case KString:
 		payload = App("box.Str", SInt, v.One())
 	case KScalarNamed:
-		payload = v.One()
+		payload = App("box.Int", SInt, v.One())
 	case KStruct, KSlice, KFunc, KArray, KFloat:
 		// boxed composite: an opaque fresh identity (contents not recoverable)
 		payload = u.Fresh("box", SInt)
+		u.Assume(Eq(App("root", SInt, payload), IntLit(0)))
 		u.Trust("composite value boxed into an interface: payload is opaque")
 	default:
 		return Val{}, engineErr("MakeInterface from %s unsupported", from)
@@ -1020,16 +1024,18 @@ func (x *Exec) unbox(st *State, iface Val, to types.Type) (Val, error) {
 	u := x.u
 	p := iface.S[1]
 	switch classify(to) {
-	case KPtrStruct, KPtrCell, KMap, KChan, KUnsafe, KScalarNamed:
+	case KPtrStruct, KPtrCell, KMap, KChan, KUnsafe:
 		return scalar(to, p), nil
+	case KScalarNamed:
+		return scalar(to, App("unbox.Int", SInt, p)), nil
 	case KInt:
 		if u.Mode == ModeBV {
 			ii, _ := intInfoOf(to)
-			return scalar(to, App(fmt.Sprintf("(_ int2bv %d)", ii.w), BVSort(ii.w), p)), nil
+			return scalar(to, App(fmt.Sprintf("(_ int2bv %d)", ii.w), BVSort(ii.w), App("unbox.Int", SInt, p))), nil
 		}
-		return scalar(to, p), nil
+		return scalar(to, App("unbox.Int", SInt, p)), nil
 	case KBool:
-		return scalar(to, Eq(p, IntLit(1))), nil
+		return scalar(to, Eq(App("unbox.Int", SInt, p), IntLit(1))), nil
 	case KString:
 		return scalar(to, App("unbox.Str", SStr, p)), nil
 	case KStruct, KSlice, KFunc, KArray, KFloat:
